@@ -745,6 +745,7 @@ type ctlGen struct {
 	depth int
 	n     int
 	names []string
+	chaos bool // many misplaced ENDTRY / ENDFINALLY / RET
 }
 
 func (g *ctlGen) lab() string { g.nlab++; return fmt.Sprint("L", g.nlab) }
@@ -847,7 +848,7 @@ func (g *ctlGen) block(budget int) {
 			}
 			g.simple()
 			g.mark(l)
-		case x == 12: // misplaced handler instructions
+		case x == 12 || (g.chaos && x >= 13): // misplaced handler instructions
 			switch r.Intn(3) {
 			case 0:
 				g.ins("ENDFINALLY", op(s.ENDFINALLY))
@@ -975,7 +976,7 @@ func isTry(it asmItem) bool {
 // genCtl builds a structured program with try/catch/finally, calls and jumps,
 // and sometimes damages one byte of it.
 func genCtl(r *rng.R) ([]byte, []string, bool) {
-	g := &ctlGen{r: r}
+	g := &ctlGen{r: r, chaos: r.Chance(1, 3)}
 	nf := r.Intn(3)
 	for i := 0; i < nf; i++ {
 		g.funcs = append(g.funcs, fmt.Sprint("F", i))
@@ -985,7 +986,7 @@ func genCtl(r *rng.R) ([]byte, []string, bool) {
 	if g.n < 3 {
 		g.try(budget)
 	}
-	if nf > 0 || r.Bool() {
+	if nf > 0 || r.Chance(9, 10) {
 		g.ins("RET", op(s.RET))
 	}
 	for _, f := range g.funcs {
@@ -1230,4 +1231,45 @@ func genCompound(r *rng.R) ([]byte, []string) {
 	e("LDSFLD", op(s.LDSFLD0+1))
 	e("LDSFLD", op(s.LDSFLD0+2))
 	return code, names
+}
+
+// limitsCase: struct comparison / clone budgets on both sides of their limits.
+func limitsCase(i int) ([]byte, string) {
+	rpt := func(c []byte, n int) []byte {
+		var r []byte
+		for k := 0; k < n; k++ {
+			r = append(r, c...)
+		}
+		return r
+	}
+	// fan builds a struct of n references to one struct of k small integers
+	fan := func(n, k int) []byte {
+		return cat(rpt(op(s.PUSH1), k), pushI(int64(k)), op(s.PACKSTRUCT), rpt(op(s.DUP), n-1), pushI(int64(n)), op(s.PACKSTRUCT))
+	}
+	switch kind := i % 3; kind {
+	case 0:
+		// [bs(l1), [bs(l2)]] compared with an equal, separately built value:
+		// the comparable-size budget (65536) is one budget for the whole traversal
+		ls := []int{100, 30000, 32760, 32770, 40000, 65000, 65535}
+		x := mixRadix(i/3, len(ls), len(ls), 2)
+		l1, l2 := ls[x[0]], ls[x[1]]
+		one := func(fill byte) []byte {
+			return cat(pushData(rep(1, l2)), op(s.PUSH1), op(s.PACKSTRUCT), pushData(rep(fill, l1)), op(s.PUSH2), op(s.PACKSTRUCT))
+		}
+		second := byte(1)
+		if x[2] == 1 {
+			second = 2 // differs in the outer byte string
+		}
+		return cat(one(1), one(second), op(s.EQUAL)), fmt.Sprintf("EQUAL-nested-budget|%d|%d|%d", l1, l2, x[2])
+	case 1:
+		// visits = 1 + n*(k+1) around MaxStackSize (2048)
+		nk := [][2]int{{10, 20}, {30, 60}, {22, 91}, {23, 87}, {23, 88}, {31, 65}, {32, 63}, {23, 89}, {24, 86}, {30, 70}, {40, 60}}
+		p := nk[(i/3)%len(nk)]
+		return cat(fan(p[0], p[1]), fan(p[0], p[1]), op(s.EQUAL)), fmt.Sprintf("EQUAL-visits|%d", 1+p[0]*(p[1]+1))
+	default:
+		// clone (APPEND of a struct) of n*(k+1) sub-items around the clone limit (2047)
+		nk := [][2]int{{10, 20}, {30, 29}, {23, 88}, {32, 63}, {30, 70}, {45, 45}}
+		p := nk[(i/3)%len(nk)]
+		return cat(op(s.NEWARRAY0), op(s.DUP), fan(p[0], p[1]), op(s.APPEND), op(s.SIZE)), fmt.Sprintf("clone-subitems|%d", p[0]*(p[1]+1))
+	}
 }
